@@ -151,6 +151,7 @@ type Machine struct {
 	jsonAppend     *ssa.Function
 	fs             map[string]bool
 	fsTemp         int
+	uuidCount      int
 	model          map[string]uint64
 	modelValid     bool
 	auxVars        []*Term
